@@ -373,6 +373,9 @@ func (g *PCFG) Preds(b *ssa.BasicBlock) []*ssa.BasicBlock {
 
 // Live: the instruction can execute (block reachable, not after a no-return call).
 func (g *PCFG) Live(in ssa.Instruction) bool {
+	if site := g.foreignSite(in); site != nil {
+		return g.Live(site) && g.P.G(in.Parent()).Live(in)
+	}
 	b := in.Block()
 	if b == nil || !g.Reach[b] {
 		return false
@@ -410,6 +413,26 @@ func (g *PCFG) BlockDom(a, b *ssa.BasicBlock) bool {
 
 // Dominates: instruction a executes before b on every path from entry to b.
 func (g *PCFG) Dominates(a, b ssa.Instruction) bool {
+	// instructions of a new helper seen through allInstrs' virtual view (effects.go): the helper's body stands
+	// at its call site
+	sa, sb := g.foreignSite(a), g.foreignSite(b)
+	if sa != nil || sb != nil {
+		if sa != nil && sb != nil && a.Parent() == b.Parent() {
+			return g.P.G(a.Parent()).Dominates(a, b)
+		}
+		throughA := true
+		if sa != nil {
+			throughA = dominatesAllReturns(g.P.G(a.Parent()), a.Parent(), a)
+			a = sa
+		}
+		if sb != nil {
+			b = sb
+		}
+		if a == b {
+			return false
+		}
+		return throughA && g.Dominates(a, b)
+	}
 	ba, bb := a.Block(), b.Block()
 	if ba == bb {
 		return idxIn(ba, a) < idxIn(bb, b)
@@ -482,7 +505,13 @@ func (g *PCFG) CondsOnEdge(pred, succ *ssa.BasicBlock) []Cond {
 }
 
 // CondsAtInstr: conditions holding at an instruction.
-func (g *PCFG) CondsAtInstr(in ssa.Instruction) []Cond { return g.CondsAt(in.Block()) }
+func (g *PCFG) CondsAtInstr(in ssa.Instruction) []Cond {
+	if site := g.foreignSite(in); site != nil {
+		out := append([]Cond{}, g.CondsAt(site.Block())...)
+		return append(out, g.P.G(in.Parent()).CondsAt(in.Block())...)
+	}
+	return g.CondsAt(in.Block())
+}
 
 // walk visits, in execution order, instructions reachable from (b,idx) in the pruned graph without
 // passing an instruction for which barrier returns true.  visit returns true to stop (found).
@@ -834,6 +863,66 @@ func allInstrs(fn *ssa.Function, f func(ssa.Instruction)) {
 			f(in)
 		}
 	}
+	// virtual view: the bodies of new helpers (functions the baseline does not know and the source inliner
+	// could not put back, normalize.go) are read as part of the baseline function that calls them
+	if !virtualView || !anyNewHelpers || isNewHelperMemo(fn) {
+		return
+	}
+	seen := map[*ssa.Function]bool{fn: true}
+	var visit func(from *ssa.Function, site ssa.Instruction, d int)
+	visit = func(from *ssa.Function, site ssa.Instruction, d int) {
+		for _, b := range from.Blocks {
+			for _, in := range b.Instrs {
+				sc := staticCallee(in)
+				if sc == nil || seen[sc] || sc.Blocks == nil || !isNewHelperMemo(sc) {
+					continue
+				}
+				seen[sc] = true
+				at := site
+				if at == nil {
+					at = in
+				}
+				if helperSite[sc] == nil {
+					helperSite[sc] = map[*ssa.Function]ssa.Instruction{}
+				}
+				helperSite[sc][fn] = at
+				for _, hb := range sc.Blocks {
+					for _, hin := range hb.Instrs {
+						f(hin)
+					}
+				}
+				if d < 2 {
+					visit(sc, at, d+1)
+				}
+			}
+		}
+	}
+	visit(fn, nil, 0)
+}
+
+var anyNewHelpers, virtualView bool
+var helperSite = map[*ssa.Function]map[*ssa.Function]ssa.Instruction{}
+var newHelperMemo = map[*ssa.Function]bool{}
+
+func isNewHelperMemo(fn *ssa.Function) bool {
+	if v, ok := newHelperMemo[fn]; ok {
+		return v
+	}
+	v := isNewHelper(fn)
+	newHelperMemo[fn] = v
+	return v
+}
+
+// foreignSite: for an instruction of a new helper seen through the virtual view, the call in g's function
+// that stands for it (nil for g's own instructions).
+func (g *PCFG) foreignSite(in ssa.Instruction) ssa.Instruction {
+	if !virtualView || !anyNewHelpers || in == nil || in.Parent() == g.Fn || in.Parent() == nil {
+		return nil
+	}
+	if m := helperSite[in.Parent()]; m != nil {
+		return m[g.Fn]
+	}
+	return nil
 }
 
 // withClosures visits fn and all its (transitively) nested anonymous functions.
